@@ -45,3 +45,12 @@ def contract_for(dpath):
         if dpath.startswith(t) and dpath.rsplit("::", 1)[-1] in VEC_METHODS:
             return {}
     return None
+
+
+# Results that RESCALE another quantity: `normalize` returns the number of bits by which it shifted the significand, and the error
+# budget of the stage (the first argument of the listed consumer) is expressed in units of the last place of that significand.
+# A caller may drop the returned shift only while every value that flows into the consumer's argument is provably zero;
+# otherwise the pending error is silently left in the old unit (E4 obligation `scale-consumed`, C11).
+SCALED_RESULTS = {
+    "minimal_lexical::bellerophon::normalize": {"consumer": "minimal_lexical::bellerophon::error_is_accurate", "arg": 0},
+}
